@@ -402,19 +402,6 @@ Section Two.
   Qed.
 End Two.
 
-(* an executable check of the hypothesis *)
-Fixpoint lexsim_b (fuel : nat) (s1 : str) (o1 : N) (s2 : str) (o2 : N) : bool :=
-  match fuel with
-  | O => false
-  | S f =>
-      match lex1 s1 o1, lex1 s2 o2 with
-      | LEof, LEof => true
-      | LInvalid _, LInvalid _ => true
-      | LTok _ i1 t1 e1 r1, LTok _ i2 t2 e2 r2 => N.eqb i1 i2 && str_eqb t1 t2 && lexsim_b f r1 e1 r2 e2
-      | _, _ => false
-      end
-  end.
-
 Lemma lexsim_b_sound : forall fuel s1 o1 s2 o2, lexsim_b fuel s1 o1 s2 o2 = true -> lexsim (s1, o1) (s2, o2).
 Proof.
   induction fuel as [|f IH]; intros s1 o1 s2 o2 H; cbn [lexsim_b] in H; [discriminate|].
